@@ -66,41 +66,111 @@ def dec(data):
     return [RUNIT.get(x, '?') for x in data]
 
 
-def separator(name, text, remax=RE_MAX):
-    """-> (separator argument, max_separator_len)"""
+NO_SEP = ('-', ())
+
+
+def norm_sep(x):
+    """separator as printed by the specification -> hashable
+    (kind, (alt, ...)) with kind in lit / re0 / reK / -"""
+    if isinstance(x, tuple):
+        return x
+    if x == '-' or not x or x[0] == '-':
+        return NO_SEP
+    return (x[0], tuple(tuple(a) for a in x[1]))
+
+
+def separator(sep, text, remax=RE_MAX, seqtype=tuple):
+    """-> (separator argument for readuntil, max_separator_len)"""
     cv = (lambda b: b.decode()) if text else (lambda b: b)
-    if name == 'nl':
-        return cv(b'\n'), 0
-    if name == 'ab':
-        return cv(b'ab'), 0
-    if name == 'tup':
-        return (cv(b'a'), cv(b'b\n')), 0
-    if name == 're0':
+    kind, alts = sep
+    if kind == 're0':
         return re.compile(cv(b'a+b')), 0
-    if name == 'reK':
+    if kind == 'reK':
         return re.compile(cv(b'a+b')), remax
-    raise ValueError(name)
+    lits = [cv(enc(a, False)) for a in alts]
+    if len(lits) == 1:
+        return lits[0], 0
+    return seqtype(lits), 0
+
+
+def sep_shape(sep):
+    """shape class of a literal separator tuple (as in Stream.tla)"""
+    kind, alts = sep
+    if kind != 'lit':
+        return kind
+    if len(alts) == 1:
+        x = alts[0]
+        if len(x) == 1:
+            return 'one'
+        if x[0] in x[1:]:
+            return 'rep' if len(x) == 2 else 'rep3'
+        return 'word'
+    x, y = alts[0], alts[1]
+    if len(x) == len(y):
+        return 'eq'
+    sh, lo = (x, y) if len(x) < len(y) else (y, x)
+    offs = [i for i in range(len(lo) - len(sh) + 1)
+            if lo[i:i + len(sh)] == sh]
+    if 0 in offs and x == sh:
+        return 'prefix'
+    if any(i + len(sh) < len(lo) for i in offs):
+        return 'nested'
+    if offs:
+        return 'suffix'
+    order = {'n': 0, 'a': 1, 'b': 2}
+    return 'lexopp' if [order[u] for u in lo] < [order[u] for u in sh] \
+        else 'lexsame'
 
 
 # ---------------------------------------------------------------------------
 # reference semantics of the property, on plain lists of units
 
-def in_lang(name, x):
-    if name in ('re0', 'reK'):
+def in_lang(sep, x):
+    kind, alts = sep
+    if kind in ('re0', 'reK'):
         return len(x) >= 2 and x[-1] == 'b' and all(u == 'a' for u in x[:-1])
-    alts = {'nl': [['n']], 'ab': [['a', 'b']],
-            'tup': [['a'], ['b', 'n']]}[name]
-    return list(x) in alts
+    return tuple(x) in alts
 
 
-def ref_end(name, run):
+def ref_end(sep, run):
     """length of the shortest prefix of run that ends with a separator
     match, 0 if there is none"""
     for e in range(1, len(run) + 1):
         for p in range(0, e):
-            if in_lang(name, run[p:e]):
+            if in_lang(sep, run[p:e]):
                 return e
     return 0
+
+
+def occurrences(sep, run):
+    """[(start, end)] of every separator occurrence in run"""
+    out = []
+    for e in range(1, len(run) + 1):
+        for p in range(0, e):
+            if in_lang(sep, run[p:e]):
+                out.append((p, e))
+    return out
+
+
+def cut_inside_match(case):
+    """True if the case's first readuntil/readline call has a separator
+    occurrence in its stream with a packet boundary strictly inside it (used
+    to prioritise cases, never for a verdict)"""
+    _, streams, hist = case
+    call = next((l for l in hist if l[0] == 'call'), None)
+    if call is None or call[2] not in ('until', 'line'):
+        return False
+    sep = norm_sep(call[4])
+    cuts = set()
+    pos = 0
+    for l in hist:
+        if l[0] == 'emit' and l[1] == 'data' and l[2] == call[1]:
+            pos += len(l[3])
+            cuts.add(pos)
+    data = [u for u in streams[0] if not u.startswith('!')] \
+        if call[1] != 'err' else streams[1]
+    return any(any(p < c < e for c in cuts)
+               for p, e in occurrences(sep, data))
 
 
 # ---------------------------------------------------------------------------
@@ -229,7 +299,7 @@ class Replay:
     """Replay of one case."""
 
     def __init__(self, h, case, text=False, api='process', remax=RE_MAX,
-                 target=None):
+                 target=None, seqtype='tuple'):
         self.h = h
         self.loop = h.loop
         self.W = case[0]
@@ -239,6 +309,7 @@ class Replay:
         self.api = api
         self.remax = remax
         self.target_kind = target
+        self.seqtype = list if seqtype == 'list' else tuple
         self.role = 'server' if any(
             l[0] == 'emit' and l[2] == 'in' or l[0] == 'call' and l[1] == 'in'
             for l in self.hist) else 'client'
@@ -364,6 +435,7 @@ class Replay:
 
     # -- reading side --------------------------------------------------
     def start_call(self, dt, kind, n, sep):
+        sep = norm_sep(sep)
         if kind == 'wait':
             coro = self.proc.wait()
         elif kind == 'collect':
@@ -379,7 +451,7 @@ class Replay:
             elif kind == 'line':
                 coro = rd.readline()
             else:
-                s, msl = separator(sep, self.text, self.remax)
+                s, msl = separator(sep, self.text, self.remax, self.seqtype)
                 coro = rd.readuntil(s, msl) if msl else rd.readuntil(s)
         task = self.loop.create_task(coro)
         spec = (kind, n, sep)
@@ -621,7 +693,11 @@ def judge(rep):
         return ''
 
     def bad(clause, dt, spec, detail):
-        viol.append((clause, spec, f'{dt} {spec}: {detail}', context(dt)))
+        ctx = context(dt)
+        if not ctx and spec and spec[0] == 'until' and \
+                sep_shape(spec[2]) == 'nested':
+            ctx = 'nested-separators'
+        viol.append((clause, spec, f'{dt} {spec}: {detail}', ctx))
 
     for ev in rep.log:
         if ev[0] == 'arrive':
